@@ -17,6 +17,7 @@ that they are not re-sent to the new data centre (they wait until someone answer
 evidence and a note; set STRICT_INFLIGHT to report it as a violation.
 """
 import os
+import shutil
 import time
 
 from .. import common as C
@@ -61,7 +62,8 @@ def stage(ctx):
     out = work + "/migrate.txt"
     if os.path.exists(out):
         os.remove(out)
-    rc, log = C.sh([hb, "migrate", ctx.tier, out], env=ctx.env(), timeout=3000 if ctx.tier == "thorough" else 600)
+    rc, log = C.sh([hb, "migrate", ctx.tier, out], env=c13m.scratch_env(ctx, work), timeout=3000 if ctx.tier == "thorough" else 600)
+    shutil.rmtree(work + "/scratch", ignore_errors=True)
     rows = C.read_tsv(out) if os.path.exists(out) else []
     if rc != 0 or not rows or rows[-1][0] != "END":
         raise C.BuildError("e2e migrate harness failed (rc=%s): %s" % (rc, log[-3000:]))
@@ -238,8 +240,23 @@ def stage(ctx):
                                          "after that the server the client is connected to answers their old msg_ids",
         "rule": "rpc_error texts {PHONE_MIGRATE_<configured id>, <unconfigured id>, literal X, non-numeric, empty, out of range, other *_MIGRATE_ and plain errors} x "
                 "set-up {SetDCList on a connected client, telegram.NewClient fed by help.getConfig} x seq_no of the error message {needs ack, does not} x "
-                "{0,1,2} other calls waiting x {free run, receive loop's ack held until the old socket is closed, receive loop's next read held likewise}; "
+                "{0,1,2} other calls waiting x {free run, receive loop's ack held until the caller has closed the old socket, its next read held likewise, its next read held until the caller has switched to the new data centre and repeated the request}; "
                 "every scenario in its own process; decision compared with the extracted handle/to_native on the DC table read from the live client",
         "samples": samples, "migrate_stage_wall_s": round(time.time() - t0, 1),
     }
     return {"phone_migrate_live": cov}
+
+
+def replay(ctx, path):
+    """re-run the stage under the replay's tier and seed; the finding is reproduced iff its key is reported again"""
+    import json
+    obj = json.load(open(path))
+    ctx.tier = obj.get("tier", ctx.tier)
+    ctx.seed = obj.get("seed", ctx.seed)
+    stage(ctx)
+    hit = [v for v in ctx.violations if v[0] == obj.get("key")]
+    print("scenario=%s expected=%s got=%s" % (obj.get("scenario"), obj.get("expected"), hit[0][2].get("got") if hit else "as expected"))
+    if hit:
+        print("VIOLATION property=%s replay=%s" % (ctx.prop, path))
+        return 1
+    return 0
